@@ -56,7 +56,7 @@ LcCands == LET e == ElSeq(ord)  best == LcBest(e, 0)
               ELSE SelectSeq(e, LAMBDA b : conns[best] * w[b] - conns[b] * w[best] = 0)
 
 \* ---- simpleBalance: the for-loop, with fuel; "diverged" = the loop would not end
-Succ1(i) == IF i >= N THEN 1 ELSE i + 1
+Succ1(i) == IF i >= Len(ord) THEN 1 ELSE i + 1
 RECURSIVE Scan(_, _, _, _, _)
 Scan(i, start, allDown, c, fuel) ==
     IF fuel = 0 THEN [kind |-> "diverged", b |-> 0, cur |-> c, nxt |-> i]
@@ -69,14 +69,17 @@ Scan(i, start, allDown, c, fuel) ==
                      THEN IF ad THEN [kind |-> "err", b |-> 0, cur |-> c, nxt |-> start]
                           ELSE Scan(1, 1, ad, sw, fuel - 1)        \* initWeight(); next = 0
                      ELSE Scan(j, start, ad, c, fuel - 1)
-Simple == IF N = 0 THEN [kind |-> "err", b |-> 0, cur |-> cur, nxt |-> nxt]
+Simple == IF Len(ord) = 0 THEN [kind |-> "err", b |-> 0, cur |-> cur, nxt |-> nxt]
           ELSE Scan(nxt, nxt, TRUE, cur, 3 * N + 3)
 
 \* ---- stickyBalance(key): eligible sorted by address (= id), cumulative weights
 RECURSIVE Walk(_, _)
 Walk(s, v) == IF s = <<>> THEN 0
               ELSE IF v - w[Head(s)] < 0 THEN Head(s) ELSE Walk(Tail(s), v - w[Head(s)])
-Sorted == [i \in 1..N |-> i]
+InList == {ord[i] : i \in 1..Len(ord)}
+RECURSIVE SortedOf(_)
+SortedOf(S) == IF S = {} THEN <<>> ELSE LET m == CHOOSE x \in S : \A y \in S : x <= y IN <<m>> \o SortedOf(S \ {m})
+Sorted == SortedOf(InList)
 
 ------------------------------------------------------------------------
 Init == /\ \E w0 \in [B -> Weights] : PInit(w0, [b \in B |-> TRUE])
@@ -121,20 +124,26 @@ StickyPick(r) == /\ CanPick("sticky")
                  /\ ord' = Sorted                \* ensureSortedUnlocked sorts in place
                  /\ Bump("picks") /\ UNCHANGED <<cur, nxt>>
 
-Flip(b) == /\ nops.flips < MaxFlips
+Flip(b) == /\ nops.flips < MaxFlips /\ b \in InList
            /\ PFlip(b)
            /\ Bump("flips") /\ UNCHANGED <<ord, cur, nxt>>
 
-ConnOp(b, d) == /\ nops.connops < MaxConnOps
+ConnOp(b, d) == /\ nops.connops < MaxConnOps /\ b \in InList
                 /\ conns[b] + d <= MaxConn /\ PConn(b, d)
                 /\ Bump("connops") /\ UNCHANGED <<ord, cur, nxt>>
 
-\* Update(conf) with the same backends: UpdateWeight for each, then (after the fix of
-\* C01) current restarts from the new weight; next = 0; sorted = false (order kept).
-Update(nw) == /\ nops.updates < MaxUpdates
-              /\ PUpdate(nw) /\ cur' = [b \in B |-> Scale * nw[b]]
-              /\ nxt' = 1 /\ nops' = [nops EXCEPT !.updates = @ + 1, !.picks = 0]
-              /\ UNCHANGED ord
+\* Update(conf): backends in `keep` stay (UpdateWeight) or are created (at most one new one per
+\* reload here: several new ones are appended in map-iteration order), the others are released
+\* and leave the list; (after the fix of C01) current restarts from the new weight; next = 0.
+Update(nw, keep) ==
+    /\ nops.updates < MaxUpdates
+    /\ keep # {} /\ \A b \in B \ keep : nw[b] = 0
+    /\ Cardinality(keep \ InList) <= 1
+    /\ PUpdate(nw, [b \in B |-> IF b \in keep \ InList THEN TRUE ELSE avail[b]],
+                   [b \in B |-> IF b \in keep \cap InList THEN conns[b] ELSE 0])     \* new objects: available, no connections
+    /\ cur' = [b \in B |-> Scale * nw[b]]
+    /\ ord' = SelectSeq(ord, LAMBDA b : b \in keep) \o SortedOf(keep \ InList)
+    /\ nxt' = 1 /\ nops' = [nops EXCEPT !.updates = @ + 1, !.picks = 0]
 
 MaxWsum == N * 8
 Next == \/ SmoothPick \/ WlcSmoothPick \/ SimplePick
@@ -142,7 +151,7 @@ Next == \/ SmoothPick \/ WlcSmoothPick \/ SimplePick
         \/ \E r \in 0..MaxWsum : StickyPick(r)
         \/ \E b \in B : Flip(b)
         \/ \E b \in B, d \in {-1, 1} : ConnOp(b, d)
-        \/ \E nw \in [B -> Weights] : Update(nw)
+        \/ \E nw \in [B -> Weights], keep \in SUBSET B : Update(nw, keep)
 Spec == Init /\ [][Next]_vars
 
 ------------------------------------------------------------------------
@@ -150,5 +159,5 @@ Spec == Init /\ [][Next]_vars
 SimpleTerminates == ("simple" \in Algos) => Simple.kind # "diverged"
 \* one smooth pick after a load point the eligible currents sum to W
 SumInv == (fresh /\ Len(hist) > 0) => SeqSum(cur, ElSeq(ord)) = Scale * W
-NextInRange == N > 0 => nxt \in 1..N
+NextInRange == Len(ord) > 0 => nxt \in 1..Len(ord)
 ========================================================================
